@@ -32,6 +32,11 @@ var props = map[string]propDef{
 	"C01": {genC01, dec[CaseC01]()},
 	"C11": {genC11, dec[CaseC11]()},
 	"C05": {genC05, dec[CaseC05]()},
+	"C06": {genC06, dec[CaseC06]()},
+	"C08": {genC08, dec[CaseC08]()},
+	"C09": {genC09, dec[CaseC09]()},
+	"C12": {genC12, dec[CaseC12]()},
+	"C16": {genC16, dec[CaseC16]()},
 	"C18": {genC18, dec[CaseC18]()},
 	"C10": {genC10, dec[CaseC10]()},
 	"C17": {genC17, dec[CaseC17]()},
